@@ -458,7 +458,7 @@ def unesc(s):
     return "".join(out)
 
 
-def run_driver(exe, env, schema, types, lines, workdir, tag, crashes):
+def run_driver(exe, env, schema, types, lines, workdir, tag, crashes, extra=()):
     """runs the batch driver over `lines`; returns (schema diagnostics, result lines aligned with `lines`).
     A crash (sanitizer abort, signal) is attributed to the first case without a complete result line; that case gets the pseudo
     result 'X\t<json log>' and the driver is restarted behind it (--skip)."""
@@ -473,7 +473,7 @@ def run_driver(exe, env, schema, types, lines, workdir, tag, crashes):
     skip = 0
     guard = 0
     while True:
-        cmd = [exe, "--schema", schema, "--types", types, "--in", inp, "--out", outp, "--skip", str(skip)]
+        cmd = [exe, "--schema", schema, "--types", types, "--in", inp, "--out", outp, "--skip", str(skip)] + list(extra)
         with open(errp, "w") as ef:
             rc = subprocess.call(cmd, env=env, stdout=subprocess.DEVNULL, stderr=ef)
         data = open(outp).read() if os.path.exists(outp) else ""
@@ -487,6 +487,16 @@ def run_driver(exe, env, schema, types, lines, workdir, tag, crashes):
             break
         guard += 1
         log = open(errp).read()[:1500]
+        if rc in (126, 127) or "error while loading shared libraries" in log:
+            # the library flavor is being relinked by a concurrent `xv build` (other checks share build/asan): wait for it, then go on
+            time.sleep(5)
+            build.ensure_lib("asan", quiet=True)
+            skip = len(res)
+            with open(outp, "w") as f:
+                f.write("".join(ln + "\n" for ln in diags + res))
+            if guard > 60:
+                raise RuntimeError("driver cannot be started: " + log)
+            continue
         idx = len(res)
         if idx >= len(lines) or guard > 200 or rc == 2:
             raise RuntimeError("driver failed without a pending case (rc=%s, %d/%d results): %s" % (rc, len(res), len(lines), log))
@@ -526,9 +536,12 @@ class Acc:
     def violation(self, kind, **fields):
         self.count("violations")
         self.count("violations:" + kind)
-        per = self.cnt.get("_listed:" + kind, 0)
-        if per < 6 and len(self.viol) < 400:
-            self.cnt["_listed:" + kind] = per + 1
+        tn = str(fields.get("type"))
+        tn = tn.split("{")[0] if len(tn) > 40 else tn
+        self.count("vt:%s|%s" % (kind, tn))
+        per = self.cnt.get("_listed:" + kind + "|" + tn, 0)
+        if per < 3 and len(self.viol) < 1500:
+            self.cnt["_listed:" + kind + "|" + tn] = per + 1
             v = {"case": fields.pop("case", None), "kind": kind}
             v.update(fields)
             self.viol.append(v)
@@ -785,10 +798,12 @@ def process_segment(space, exe, env, schema, types, tdefs, Ts, cases, pairs, wor
                     acc.violation("dv-accepts-invalid", why=val, observed=f[1], **ctx)
                 elif not dv_ok and st == "V":
                     acc.violation("dv-rejects-valid", observed=f[1], **ctx)
-            c = None if f[2].startswith(("~", "!")) else unesc(f[2])
-            if f[2].startswith("!"):
+            c = None if f[2].startswith(("~", "!", "K:")) else unesc(f[2])
+            if f[2].startswith("K:"):
+                acc.count("known_defect_skipped:" + f[2][2:])
+            elif f[2].startswith("!"):
                 acc.violation("dv-canon-exception", observed=f[2], **ctx)
-            if dv_ok and c is None:
+            if dv_ok and c is None and not f[2].startswith("K:"):
                 acc.count("dv_canon_null_for_valid")
                 if st == "V":
                     acc.violation("dv-canon-null", observed=f[2], **ctx)
@@ -808,28 +823,43 @@ def process_segment(space, exe, env, schema, types, tdefs, Ts, cases, pairs, wor
                 if nodv:
                     if st != "U" and xs_ok != (st == "V"):
                         acc.violation("xsvalue-accepts-invalid" if xs_ok else "xsvalue-rejects-valid", xsvalue=f[3], **ctx)
+                elif xs_ok != dv_ok and st == "U" and name == "anyURI":
+                    acc.count("anyuri_unspecified_not_judged")
                 elif xs_ok != dv_ok:
                     acc.violation("xsvalue-verdict-differs-from-validator", dv=f[1], xsvalue=f[3], oracle=st, **ctx)
                 elif st != "U" and xs_ok != (st == "V"):
                     acc.count("xs_wrong_like_validator")
-                xc = None if f[4].startswith("~") else unesc(f[4])
+                blank = lex.strip(" \t\n\r") == ""      # XSValue documents st_NoContent for empty / all-blank content in getActualValue / getCanonicalRepresentation
+                xc = None if f[4].startswith(("~", "K:")) else unesc(f[4])
                 if xc is not None and st == "V":
                     acc.count("xs_canon_checked")
-                    canon_checks(T, lex, val, xc, acc, ctx, "xsvalue")
-                    if c is not None and xc != c:
+                    if c is not None and xc == c:
+                        acc.count("xs_canon_same_as_dv_canon")      # already judged as the validator's canonical form
+                    else:
                         acc.count("xs_canon_differs_from_dv_canon")
-                    phase2.append("V\t%d\t%s" % (tid, esc(xc)))
-                    phase2_meta.append((ci, xc, "xsvalue"))
+                        canon_checks(T, lex, val, xc, acc, ctx, "xsvalue")
+                        phase2.append("V\t%d\t%s" % (tid, esc(xc)))
+                        phase2_meta.append((ci, xc, "xsvalue"))
                 if xc is not None and st == "I":
-                    acc.violation("xsvalue-canon-for-invalid", observed=xc, **ctx)
-                if st == "V" and xs_ok:
+                    if dv_ok:
+                        acc.count("xs_consequence_of_validator_accepting_invalid")
+                    else:
+                        acc.violation("xsvalue-canon-for-invalid", observed=xc, **ctx)
+                if st == "V" and xs_ok and blank:
+                    acc.count("xs_blank_content_not_judged")
+                elif st == "V" and xs_ok:
                     acc.count("xs_actual_checked")
                     check_xs_actual(T, name, lex, val, f[5], acc, ctx)
                 elif st == "I" and not f[5].startswith("~"):
-                    acc.violation("xsvalue-actual-for-invalid", observed=f[5], **ctx)
+                    if dv_ok:
+                        acc.count("xs_consequence_of_validator_accepting_invalid")
+                    else:
+                        acc.violation("xsvalue-actual-for-invalid", observed=f[5], **ctx)
                 if len(f) >= 7 and st != "U":
                     dec = f[6]
-                    if st == "V":
+                    if st == "V" and lex == "":
+                        acc.count("binary_decode_empty_not_judged")
+                    elif st == "V":
                         if dec != "=" + val.hex():
                             acc.violation("binary-decode", expected=val.hex(), observed=dec, **ctx)
                         else:
@@ -903,10 +933,17 @@ def process_segment(space, exe, env, schema, types, tdefs, Ts, cases, pairs, wor
                     if ci in dvres and dvres[ci] != pv:
                         acc.violation("parse-differs-from-validator", parse=pv, dv=dvres[ci], **ctx)
                     continue
+                same_as_dv = ci in dvres and dvres[ci] == pv and exp == st
                 if pv and exp == "I":
-                    acc.violation("parse-accepts-invalid", why=str(val), **ctx)
+                    if same_as_dv:
+                        acc.count("parse_wrong_like_validator")       # reported once, as dv-accepts-invalid
+                    else:
+                        acc.violation("parse-accepts-invalid", why=str(val), dv=dvres.get(ci), **ctx)
                 elif not pv and exp == "V":
-                    acc.violation("parse-rejects-valid", **ctx)
+                    if same_as_dv:
+                        acc.count("parse_wrong_like_validator")
+                    else:
+                        acc.violation("parse-rejects-valid", dv=dvres.get(ci), **ctx)
     # ---- phase 2: canonical literals are valid, value-preserving, idempotent
     if phase2:
         # dedupe
@@ -934,7 +971,8 @@ def process_segment(space, exe, env, schema, types, tdefs, Ts, cases, pairs, wor
                 if st2 == "I":
                     acc.violation(who + "-canon-not-in-lexical-space", why=str(val2), **ctx)
                     continue
-                if st2 == "V" and not T.veq(val, val2):
+                skipv = T.variety == "atomic" and ((isinstance(T.prim, O.DateTimeLike) and T.prim.name != "time" and T.prim.order_unspec(val)) or float_band(T, lex))
+                if st2 == "V" and not skipv and not T.veq(val, val2):
                     if not (T.variety == "atomic" and isinstance(T.prim, O.DateTimeLike) and T.prim.name == "time" and val[2] == val2[2] and (val[1] - val2[1]) % 86400 == 0):
                         acc.violation(who + "-canon-changes-value", **ctx)
                         continue
@@ -950,11 +988,16 @@ def process_segment(space, exe, env, schema, types, tdefs, Ts, cases, pairs, wor
 
 # ================================================================================================ worker / space runner
 CHUNK = 40000
+KNOWN_DEFECT_CANARIES = [("date-canonical-negative-year", "date", "-0001-01-01")]
 
 
 def build_space(name, tier):
     if name == "lex":
         tdefs, enums = lex_space(tier)
+        only = os.environ.get("C09_ONLY")          # development aid: restrict the lex space to some built-ins
+        if only:
+            keep = set(only.split(","))
+            enums = [(t, e) for t, e in enums if tdefs[t]["b"] in keep]
         return tdefs, enums, []
     if name == "facets":
         tdefs, enums = facet_space(tier)
@@ -1095,6 +1138,15 @@ def run_space(run, tier, out_path, env):
                       type=O.tdef_str(tdefs[ti]) if ti is not None else None)
     if res is None:
         raise RuntimeError("schema of space %s does not load: %s" % (space, diags[:3]))
+    # ---- one unguarded canary per KNOWN_DEFECTS entry of the driver (the guarded cases are only counted)
+    for kd, tname, lexv in KNOWN_DEFECT_CANARIES:
+        tids = [i for i, t in enumerate(tdefs) if t.get("b") == tname]
+        if tids and space == "lex":
+            cr = []
+            _, r1 = run_driver(exe, env, sp, tp, ["V\t%d\t%s" % (tids[0], esc(lexv))], workdir, "canary", cr, extra=["--no-guards"])
+            acc.count("known_defect_canaries")
+            if cr:
+                acc.violation("crash", known_defect=kd, type=tname, tdef=tdefs[tids[0]], raw=lexv, lex=lexv, log=cr[0][1][:1500], space=space)
     W = max(1, min(W, len(units)))
     procs = []
     for w in range(W):
@@ -1137,18 +1189,22 @@ def run_space(run, tier, out_path, env):
     listed = []
     per = {}
     for v in acc.viol:
-        if per.get(v["kind"], 0) < 4:
-            per[v["kind"]] = per.get(v["kind"], 0) + 1
+        tn = str(v.get("type"))
+        key = (v["kind"], tn.split("{")[0] if len(tn) > 40 else tn)
+        if per.get(key, 0) < 2:
+            per[key] = per.get(key, 0) + 1
             listed.append(v)
-    cnt = {k: v for k, v in acc.cnt.items() if not k.startswith("_")}
+    by_type = {k[3:]: v for k, v in acc.cnt.items() if k.startswith("vt:")}
+    cnt = {k: v for k, v in acc.cnt.items() if not k.startswith(("_", "vt:"))}
     cnt.setdefault("violations", 0)
     cnt["types"] = len(tdefs)
     out = {"space": run["name"], "total": total, "workers": W, "wall_s": round(time.time() - t0, 3),
            "bounds": {"types": len(tdefs), "enumerations": len(enums), "pairs": len(pairs), "parse_every": pk,
                       "alphabets": [dict(type=O.tdef_str(tdefs[t]), **e.desc()) for t, e in enums[:80]]},
-           "counters": cnt, "violations": listed[:60], "samples": acc.samples[:8]}
+           "counters": cnt, "violations": listed[:400], "samples": acc.samples[:8]}
     # the orchestrator treats counted-but-unlisted violations as unclassifiable: list cap per kind is intentional, so report the per-kind totals
     out["violation_totals"] = {k[11:]: v for k, v in cnt.items() if k.startswith("violations:")}
+    out["violation_totals_by_type"] = by_type
     cnt["violations"] = len(out["violations"])
     json.dump(out, open(out_path, "w"))
     if not os.environ.get("XV_KEEP"):
